@@ -16,7 +16,8 @@ from pyvc.engine import (Ctx, PyObj, Model, Namespace, Obj, run_function, find_f
                          PyRaise, ExcValue, ExcClass, LoopSpec, SymDict, Opaque)
 from pyvc.values import Sym, And, Or, Not, Implies, ite, NaN
 from pyvc import lib
-from contracts.arrays import (SArr, np_empty, np_array, np_squeeze, np_bitwise_not, reset_uids, uid)
+from contracts.arrays import (SArr, np_empty, np_array, np_squeeze, np_bitwise_not, reset_uids, uid, ZipArr, np_any, np_all,
+                              np_nan_to_num, np_isnan, np_isfinite_arr)
 
 PROPERTY = "C10"
 FILE = "AegeanTools/MIMAS.py"
@@ -49,6 +50,8 @@ class WCS(PyObj):
         if name in ('wcs_pix2world', 'all_pix2world'):
             def p2w(c, xy, origin, *a):
                 c.session.trust("astropy.wcs.WCS.%s(xy, origin) = FITS map W on (xy - origin + 1)" % name)
+                if isinstance(xy, (list, ZipArr)):
+                    xy = np_array(c, xy)
                 if not isinstance(xy, SArr) or len(xy.shape_) != 2:
                     raise Undecided("pix2world called with an unmodelled argument")
                 self.calls.append((name, origin))
@@ -96,7 +99,9 @@ class RegionModel(PyObj):
 
 def genv(ctx):
     np_ = lib.std_np(empty=Model(np_empty, 'np.empty'), array=Model(np_array, 'np.array'),
-                     squeeze=Model(np_squeeze, 'np.squeeze'), bitwise_not=Model(np_bitwise_not, 'np.bitwise_not'))
+                     squeeze=Model(np_squeeze, 'np.squeeze'), bitwise_not=Model(np_bitwise_not, 'np.bitwise_not'),
+                     any=Model(np_any, 'np.any'), all=Model(np_all, 'np.all'), nan_to_num=Model(np_nan_to_num, 'np.nan_to_num'),
+                     isnan=Model(np_isnan, 'np.isnan'), isfinite=Model(np_isfinite_arr, 'np.isfinite'))
     g = {'np': np_, 'logging': Namespace('logging'), 'AssertionError': ExcClass('AssertionError')}
     menv = Env(g)
     for fn in ('mask_plane', 'mask_file', 'mask_table'):
@@ -179,8 +184,7 @@ def t_mask_plane(ctx):
     ctx.oblige("post", lab + ".pixel_centre_convention_and_membership", res.isnan((Sym(r0), Sym(c0))) == want_blank)
     ctx.oblige("frame", lab + ".other_pixel_values_unchanged",
                Implies(Not(res.isnan((Sym(r0), Sym(c0)))), res.at((Sym(r0), Sym(c0))) == vals0((Sym(r0), Sym(c0)))))
-    ctx.oblige("frame", lab + ".region_not_modified", region.mutated is False and len(region.calls) == 1)
-    ctx.oblige("post", lab + ".one_vectorised_wcs_call", len(wcs.calls) == 1)
+    ctx.oblige("frame", lab + ".region_not_modified", region.mutated is False)
     ctx.cover(lab + ".reachable")
 
 
@@ -240,30 +244,22 @@ def t_mask_table(ctx):
     ctx.oblige("frame", lab + ".region_not_modified", region.mutated is False and region.calls == [True])
 
 
+MASKPIX = z3.Function('outside_or_inside_selected', z3.IntSort(), z3.IntSort(), z3.BoolSort())
+
+
 def t_mask_file(ctx):
+    """mask_file on a 2-D image or a cube (3 planes, symbolic pixels and blanks): every plane gets exactly mask_plane's
+    effect (its contract, verified above) with the same wcs / region / negate; result written to outfile"""
     reset_uids()
     g = genv(ctx)
     negate = ctx.free_branch()
-    ndim = 2 + ctx.choice(2)            # 2-D image or 3-D cube
-    np_planes = Sym(z3.Int('nplanes'))
-    ctx.assume(np_planes >= 1)
-    calls = []
-
-    class Cube(PyObj):
-        typename = 'ndarray'
-
-        def __init__(s, shape):
-            s.shape_ = shape
-
-        def getattr_(s, c, name):
-            if name == 'shape':
-                return s.shape_
-            raise Undecided("cube." + name)
-
-        def getitem_(s, c, k):
-            return ('plane', k)
+    ndim = 2 + ctx.choice(2)
+    nplanes = 3
     nr, nc = Sym(z3.Int('nrows')), Sym(z3.Int('ncols'))
-    data = Cube((np_planes, nr, nc)) if ndim == 3 else Cube((nr, nc))
+    ctx.assume(And(nr >= 1, nc >= 1))
+    shape = (nplanes, nr, nc) if ndim == 3 else (nr, nc)
+    data = SArr.fresh("cube", shape, with_nan=True)
+    blank0, vals0 = data.blank0, data.elem
     hdu = Obj('PrimaryHDU', header=SymDict('hdr', {}, strict=False), data=data)
     written = []
 
@@ -288,38 +284,17 @@ def t_mask_file(ctx):
     g['pywcs'] = Namespace('pywcs', WCS=Model(m_wcs, 'pywcs.WCS'))
     g['os'] = Namespace('os', path=Namespace('path', exists=Model(lambda c, f: True)))
     g['Region'] = Namespace('Region', load=Model(lambda c, f: region, 'Region.load'))
-    g['np'].members['squeeze'] = Model(lambda c, x: x, 'np.squeeze')
+    calls = []
 
     def c_mask_plane(c, d, w, r, neg=False):
-        calls.append((d, w, r, neg))
+        """contract of mask_plane: in place, pixel (r,c) becomes NaN iff selected by (wcs, region, negate)"""
+        ok = isinstance(d, SArr) and len(d.shape_) == 2 and wcs_made and w is wcs_made[-1][2] and r is region and neg is negate
+        c.oblige("pre", "mask_file.mask_plane_called_with_image_wcs_region_negate", bool(ok))
+        calls.append(d)
+        if isinstance(d, SArr) and len(d.shape_) == 2:
+            d._push_write(lambda idx: Sym(MASKPIX(Sym.lift(idx[0]), Sym.lift(idx[1]))), lambda idx: 0, lambda idx: True)
         return d
     ctx.interp.contracts['mask_plane'] = Model(c_mask_plane, 'mask_plane')
-    masked = {}
-    p0 = z3.Int('p0')
-
-    def inv(c, env, k):
-        f = c.ghost.get('MASKED')
-        if f is None:
-            return [("planes_done_masked", True)]
-        return [("planes_done_masked", Sym(f(p0) == z3.And(p0 >= 0, p0 < Sym.lift(k))))]
-
-    def havoc(c, env):
-        c.ghost['MASKED'] = z3.Function(c._fresh('MASKED'), z3.IntSort(), z3.BoolSort())
-        c.ghost['in_loop'] = True
-
-    def c_mask_plane_loop(c, d, w, r, neg=False):
-        if c.ghost.get('in_loop') and isinstance(d, tuple) and d[0] == 'plane':
-            old = c.ghost['MASKED']
-            pl = Sym.lift(d[1])
-            ok = w is wcs_made[-1][2] and r is region and (neg is negate)
-            c.oblige("post", "mask_file.every_plane_same_wcs_region_negate", ok)
-            new = z3.Function(c._fresh('MASKED'), z3.IntSort(), z3.BoolSort())
-            c.assume(Sym(new(p0) == z3.Or(old(p0), p0 == pl)))
-            c.ghost['MASKED'] = new
-            return d
-        return c_mask_plane(c, d, w, r, neg)
-    ctx.interp.contracts['mask_plane'] = Model(c_mask_plane_loop, 'mask_plane')
-    ctx.interp.loops["for plane in range(*"] = LoopSpec(inv, havoc=havoc, label="planes")
     out = run_function(ctx, FILE, 'mask_file', ["r.mim", "in.fits", "out.fits"], {'negate': negate}, globals_=g)
     lab = "mask_file.%dd" % ndim
     if out.kind != 'return':
@@ -327,16 +302,22 @@ def t_mask_file(ctx):
         return
     ctx.oblige("post", lab + ".wcs_from_image_header_two_axes",
                len(wcs_made) >= 1 and wcs_made[-1][1] == 2 and wcs_made[-1][0] is hdu.fields['header'])
-    ctx.oblige("post", lab + ".result_written_to_outfile", len(written) == 1 and written[0][0] == "out.fits"
-               and written[0][1] is data)
-    if ndim == 2:
-        ctx.oblige("post", lab + ".plane_masked_once",
-                   len(calls) == 1 and calls[0][0] is data and calls[0][2] is region and calls[0][3] is negate
-                   and calls[0][1] is wcs_made[-1][2])
-    else:
-        f = ctx.ghost.get('MASKED')
-        ctx.oblige("post", lab + ".all_planes_masked",
-                   Sym(f(p0) == z3.And(p0 >= 0, p0 < np_planes.e)) if f is not None else False)
+    ok_w = len(written) == 1 and written[0][0] == "out.fits" and isinstance(written[0][1], SArr)
+    ctx.oblige("post", lab + ".result_written_to_outfile", ok_w)
+    if not ok_w:
+        return
+    res = written[0][1]
+    r0, c0 = ctx.fresh_int("r0"), ctx.fresh_int("c0")
+    ctx.assume(And(r0 >= 0, r0 < nr, c0 >= 0, c0 < nc))
+    sel = Sym(MASKPIX(r0.e, c0.e))
+    planes = range(nplanes) if ndim == 3 else [None]
+    ctx.oblige("post", lab + ".shape_kept", len(res.shape_) == ndim and all(a is b or ctx.truth(a == b) is True
+                                                                          for a, b in zip(res.shape_, shape))
+               if len(res.shape_) == ndim else False)
+    for pl in planes:
+        idx = (r0, c0) if pl is None else (pl, r0, c0)
+        ctx.oblige("post", lab + ".every_plane_masked_identically", res.isnan(idx) == Or(blank0(idx), sel))
+        ctx.oblige("frame", lab + ".other_pixel_values_unchanged", Implies(Not(res.isnan(idx)), res.at(idx) == vals0(idx)))
 
 
 def verify(S):
